@@ -20,7 +20,7 @@
 EXTENDS Integers, Sequences, FiniteSets, TLC
 
 CONSTANTS MaxNodes,  \* size of the handle table
-          Kinds,     \* kinds of new nodes: <<name, hasval>>
+          Kinds,     \* kinds of new nodes: <<name, value payload>> (0 = no value object)
           Pos,       \* position arguments offered
           Keys       \* names searched for
 
@@ -283,7 +283,7 @@ CanAttach(n, target) == n \in live /\ target \in live /\ Isolated(n) /\ target \
 \* mpt_node_new + mpt_identifier_set (+ value object)
 New(k) ==
   /\ FreeIds # {}
-  /\ LET id == MinOf(FreeIds) v == IF k[2] THEN 10 + id ELSE 0 IN
+  /\ LET id == MinOf(FreeIds) v == k[2] IN
      /\ live' = live \cup {id}
      /\ name' = [name EXCEPT ![id] = k[1]] /\ val' = [val EXCEPT ![id] = v]
      /\ fo' = [fo EXCEPT !.tops = @ \cup {<<id>>}]
